@@ -314,3 +314,59 @@ def get(name):      # noqa: F811
         _, src, off = name.split("|")
         return binary_template(src, int(off))
     return _old_get(name)
+
+
+# ------------------------------------------------------------------------------------------------ mixed-feature family (C01 / C05 / C14, "programs" quantifier)
+def _pool(j, ref):
+    """field kinds; each returns (type xml, width description).  `ref` is the name of the small unsigned reference field."""
+    n = f"_{j}"
+    return [
+        lambda: I("M" + n, 3),
+        lambda: I("M" + n, 5, "signed"),
+        lambda: I("M" + n, 16, "unsigned", order="leastSignificantByteFirst"),
+        lambda: F("M" + n, 16),
+        lambda: F("M" + n, 32, order="leastSignificantByteFirst"),
+        lambda: ('<xtce:EnumeratedParameterType name="M' + n + '"><xtce:IntegerDataEncoding sizeInBits="2" encoding="unsigned"/><xtce:EnumerationList>'
+                 '<xtce:Enumeration label="A" value="0"/><xtce:Enumeration label="B" value="2"/><xtce:Enumeration label="C" value="3"/></xtce:EnumerationList>'
+                 '</xtce:EnumeratedParameterType>'),
+        lambda: '<xtce:BooleanParameterType name="M' + n + '"><xtce:IntegerDataEncoding sizeInBits="1"/></xtce:BooleanParameterType>',
+        lambda: BIN("M" + n, "<xtce:FixedValue>5</xtce:FixedValue>"),
+        lambda: BIN("M" + n, DYN(ref, "false", 3, 2)),
+        lambda: STR("M" + n, "<xtce:SizeInBits><xtce:Fixed><xtce:FixedValue>16</xtce:FixedValue></xtce:Fixed></xtce:SizeInBits>"),
+        lambda: STR("M" + n, "<xtce:SizeInBits><xtce:Fixed><xtce:FixedValue>24</xtce:FixedValue></xtce:Fixed><xtce:TerminationChar>3B</xtce:TerminationChar></xtce:SizeInBits>"),
+        lambda: I("M" + n, 7, "unsigned", DEFCAL(POLY((-3.5, 0), (0.25, 1)))),
+        lambda: I("M" + n, 6, "twosComplement", CTXCAL((CMP(ref, "1", "&gt;"), POLY((1, 0), (2, 1))), (CMP(ref, "0", "&gt;="), SPLINE([(-32, 0), (0, 8), (31, 9)], 1, "true")))),
+        lambda: ('<xtce:RelativeTimeParameterType name="M' + n + '"><xtce:Encoding units="s" scale="0.5"><xtce:IntegerDataEncoding sizeInBits="9"/></xtce:Encoding>'
+                 '</xtce:RelativeTimeParameterType>'),
+        lambda: I("M" + n, 12, "twosComplement"),
+        lambda: I("M" + n, 1),
+        lambda: STR("M" + n, "<xtce:Variable>" + DYN(ref, "false", 8, 8) + '<xtce:LeadingSize sizeInBitsOfSizeTag="8"/></xtce:Variable>'),
+    ]
+
+
+def mixed(k):
+    """deterministic document number k of the mixed family: header, reference field N (2 bits), one field in the root, and two child
+    containers selected by criteria on N that add two / one more fields drawn from the pool"""
+    npool = len(_pool(0, "N"))
+    idx = [(k * 7 + i * 5 + (k // npool)) % npool for i in range(3)]
+    types = I("N_T", 2)
+    params = [("N", "N_T")]
+    names = []
+    for j, ix in enumerate(idx):
+        types += _pool(j, "N")[ix]()
+        params.append((f"F{j}", f"M_{j}"))
+        names.append(f"F{j}")
+    crit_a = [CMP("N", "2", "&gt;="), CMPLIST(CMP("N", "1", "&gt;"), CMP("TYP", "0")), "<xtce:BooleanExpression>" + COND("N", "geq", v="2", lcal="false") + "</xtce:BooleanExpression>"][k % 3]
+    crit_b = CMP("N", "2", "&lt;") if k % 2 == 0 else CMPLIST(CMP("N", "1", "&lt;="), CMP("SHF", "0"))
+    xml = doc(types=types, params=params, root_entries=["N", names[0]],
+              children=cont("KA", [names[1], names[2]], "CCSDSPacket", crit_a) + cont("KB", [names[2]], "CCSDSPacket", crit_b))
+    return xml, 6 + 6, f"mixed document {k}: pool indices {idx}"
+
+
+_old_get2 = get
+
+
+def get(name):      # noqa: F811
+    if name.startswith("MIX"):
+        return mixed(int(name[3:]))
+    return _old_get2(name)
